@@ -294,6 +294,26 @@ def run(shard, ctx):
                     ctx.case(("ly-track", s))
                     st, x = ctx.call(MX.from_Track, MM.build_track(tracks[0]))
                     xml_case(ctx, st, x, {"tracks": tracks[:1]}, dict(w, via="musicxml.from_Track"), "track", None)
+                    if rng.random() < 0.4:
+                        # the exported track is changed in place and exported again: the second export is of the track as it is now
+                        ctx.call(MX.from_Track, t)
+                        last = tracks[0]["bars"][-1]
+                        did = MM.change_track(rng, tracks[0], t, lambda: random_bar(rng, values, last["key"], tuple(last["meter"])),
+                                              lambda: MM.random_notes(rng, lo=0, hi=107, acc=2))
+                        w2 = dict(w, exported_before_then_changed=did)
+                        st, s = ctx.call(LP.from_Track, t)
+                        node = None
+                        if st == "ok" and isinstance(s, str):
+                            try:
+                                node = ly.read_music(s)
+                            except ly.LyError as e:
+                                s = "%s (%s)" % (s, e)
+                        ctx.check("lilypond: the text parses under the independent reader", node is not None, w2, "LilyPond subset", repr(s)[:300],
+                                  mechanism="ly-parse:track-again")
+                        if node is not None:
+                            check_ly_track(ctx, node, tracks[0], w2)
+                        st, x = ctx.call(MX.from_Track, t)
+                        xml_case(ctx, st, x, {"tracks": tracks[:1]}, dict(w2, via="musicxml.from_Track"), "track", None)
                 else:
                     c = MM.build_composition(cs)
                     st, s = ctx.call(LP.from_Composition, c)
@@ -315,6 +335,28 @@ def run(shard, ctx):
                     ctx.case(("ly-comp", s))
                     st, x = ctx.call(MX.from_Composition, MM.build_composition(cs))
                     xml_case(ctx, st, x, cs, dict(w, via="musicxml.from_Composition"), "composition", None)
+                    if rng.random() < 0.4:
+                        ctx.call(MX.from_Composition, c)
+                        k = rng.randrange(len(tracks))
+                        last = tracks[k]["bars"][-1]
+                        did = MM.change_track(rng, tracks[k], c.tracks[k], lambda: random_bar(rng, values, last["key"], tuple(last["meter"])),
+                                              lambda: MM.random_notes(rng, lo=0, hi=107, acc=2))
+                        w2 = dict(w, exported_before_then_changed=[k, did])
+                        st, s = ctx.call(LP.from_Composition, c)
+                        hdr = None
+                        if st == "ok" and isinstance(s, str):
+                            try:
+                                hdr, nodes = ly.read_score(s)
+                            except ly.LyError as e:
+                                s = "%s (%s)" % (s, e)
+                        ctx.check("lilypond: the text parses under the independent reader", hdr is not None, w2, "LilyPond subset", repr(s)[:300],
+                                  mechanism="ly-parse:composition-again")
+                        if hdr is not None:
+                            ctx.check("lilypond: one music block per track", len(nodes) == len(tracks), w2, len(tracks), len(nodes), mechanism="ly-tracks")
+                            for node, ts in zip(nodes, tracks):
+                                check_ly_track(ctx, node, ts, w2)
+                        st, x = ctx.call(MX.from_Composition, c)
+                        xml_case(ctx, st, x, cs, dict(w2, via="musicxml.from_Composition"), "composition", None)
             if i < 2:
                 ctx.sample({"what": what, "lilypond": s if isinstance(s, str) else repr(s)})
     else:
